@@ -743,3 +743,85 @@ package adaptation
 //@                  && has(rres(r).Unified, k) && rres(r).Unified[k] == resources.Unified[k] && has(vres(r).Unified, k) && vres(r).Unified[k] == resources.Unified[k]
 //@   loop 2 invariant forall k string :: !visited(k) ==> has(ledger(r).unified, k) == old(has(ledger(r).unified, k)) && ledger(r).unified[k] == old(ledger(r).unified[k])
 //@                  && has(rres(r).Unified, k) == old(has(rres(r).Unified, k)) && rres(r).Unified[k] == old(rres(r).Unified[k]) && has(vres(r).Unified, k) == old(has(vres(r).Unified, k)) && vres(r).Unified[k] == old(vres(r).Unified[k])
+
+// ---------------------------------------------------------------------------
+// Plugin relays (plugin.go) and request dispatch (adaptation.go)   [generated by gen_relays.py]
+// ---------------------------------------------------------------------------
+// An implementation call is a call of the wasm or the ttrpc implementation; both are
+// ghost-logged call classes.  implcalls(M) = number of calls of method M so far.
+//@ pure subscribed(p *plugin, e api.Event) = bit(p.events, e - 1)
+// the timeout configuration lock is only ever held inside the getters/setters themselves
+//@ pure cfgLockFree() = !held(global("adaptation.timeoutCfgLock"))
+
+//@ func plugin.close
+//@   props C07 C11 C16
+//@   requires p != nil && p.impl != nil && !held(p.Mutex)
+//@   requires p.impl.wasmImpl == nil ==> p.mux != nil && p.rpcc != nil && p.rpcs != nil && p.rpcl != nil
+//@   modifies @writes
+//@   ensures [closed] p.closed
+//@   ensures [lock]   !held(p.Mutex)
+//@   ensures [same]   p.events == old(p.events) && p.impl == old(p.impl) && p.idx == old(p.idx) && p.base == old(p.base) && p.r == old(p.r)
+
+//@ func plugin.createContainer
+//@   props C06 C07
+//@   requires p != nil && p.impl != nil && !held(p.Mutex) && cfgLockFree()
+//@   requires p.impl.wasmImpl == nil ==> p.impl.ttrpcImpl != nil && p.mux != nil && p.rpcc != nil && p.rpcs != nil && p.rpcl != nil
+//@   modifies @writes
+//@   ensures [unsub]   !old(subscribed(p, Event_CREATE_CONTAINER)) ==> result.0 == nil && result.1 == nil && ncalls("api.Plugin.CreateContainer") == old(ncalls("api.Plugin.CreateContainer")) && ncalls("api.PluginService.CreateContainer") == old(ncalls("api.PluginService.CreateContainer")) && p.closed == old(p.closed)
+//@   ensures [once]    old(subscribed(p, Event_CREATE_CONTAINER)) ==> ncalls("api.Plugin.CreateContainer") + ncalls("api.PluginService.CreateContainer") == old(ncalls("api.Plugin.CreateContainer") + ncalls("api.PluginService.CreateContainer")) + 1
+//@   ensures [wasm]    old(subscribed(p, Event_CREATE_CONTAINER)) && p.impl.wasmImpl != nil ==> ncalls("api.Plugin.CreateContainer") == old(ncalls("api.Plugin.CreateContainer")) + 1
+//@                     && callarg("api.Plugin.CreateContainer", old(ncalls("api.Plugin.CreateContainer")), 2) == req && hasdeadline(callarg("api.Plugin.CreateContainer", old(ncalls("api.Plugin.CreateContainer")), 1))
+//@                     && (let rpl = callret("api.Plugin.CreateContainer", old(ncalls("api.Plugin.CreateContainer")), 0) in let err = callret("api.Plugin.CreateContainer", old(ncalls("api.Plugin.CreateContainer")), 1) in
+//@                          (err == nil ==> result.0 == rpl && result.1 == nil && p.closed == old(p.closed))
+//@                       && (err != nil && isFatalError(err) ==> result.0 == nil && result.1 == nil && p.closed)
+//@                       && (err != nil && !isFatalError(err) ==> result.0 == nil && result.1 == err && p.closed == old(p.closed)))
+//@   ensures [ttrpc]   old(subscribed(p, Event_CREATE_CONTAINER)) && p.impl.wasmImpl == nil ==> ncalls("api.PluginService.CreateContainer") == old(ncalls("api.PluginService.CreateContainer")) + 1
+//@                     && callarg("api.PluginService.CreateContainer", old(ncalls("api.PluginService.CreateContainer")), 2) == req && hasdeadline(callarg("api.PluginService.CreateContainer", old(ncalls("api.PluginService.CreateContainer")), 1))
+//@                     && (let rpl = callret("api.PluginService.CreateContainer", old(ncalls("api.PluginService.CreateContainer")), 0) in let err = callret("api.PluginService.CreateContainer", old(ncalls("api.PluginService.CreateContainer")), 1) in
+//@                          (err == nil ==> result.0 == rpl && result.1 == nil && p.closed == old(p.closed))
+//@                       && (err != nil && isFatalError(err) ==> result.0 == nil && result.1 == nil && p.closed)
+//@                       && (err != nil && !isFatalError(err) ==> result.0 == nil && result.1 == err && p.closed == old(p.closed)))
+//@   ensures [same]    p.events == old(p.events) && p.impl == old(p.impl) && p.idx == old(p.idx) && p.base == old(p.base) && !held(p.Mutex) && cfgLockFree()
+
+//@ func plugin.updateContainer
+//@   props C06 C07
+//@   requires p != nil && p.impl != nil && !held(p.Mutex) && cfgLockFree()
+//@   requires p.impl.wasmImpl == nil ==> p.impl.ttrpcImpl != nil && p.mux != nil && p.rpcc != nil && p.rpcs != nil && p.rpcl != nil
+//@   modifies @writes
+//@   ensures [unsub]   !old(subscribed(p, Event_UPDATE_CONTAINER)) ==> result.0 == nil && result.1 == nil && ncalls("api.Plugin.UpdateContainer") == old(ncalls("api.Plugin.UpdateContainer")) && ncalls("api.PluginService.UpdateContainer") == old(ncalls("api.PluginService.UpdateContainer")) && p.closed == old(p.closed)
+//@   ensures [once]    old(subscribed(p, Event_UPDATE_CONTAINER)) ==> ncalls("api.Plugin.UpdateContainer") + ncalls("api.PluginService.UpdateContainer") == old(ncalls("api.Plugin.UpdateContainer") + ncalls("api.PluginService.UpdateContainer")) + 1
+//@   ensures [wasm]    old(subscribed(p, Event_UPDATE_CONTAINER)) && p.impl.wasmImpl != nil ==> ncalls("api.Plugin.UpdateContainer") == old(ncalls("api.Plugin.UpdateContainer")) + 1
+//@                     && callarg("api.Plugin.UpdateContainer", old(ncalls("api.Plugin.UpdateContainer")), 2) == req && hasdeadline(callarg("api.Plugin.UpdateContainer", old(ncalls("api.Plugin.UpdateContainer")), 1))
+//@                     && (let rpl = callret("api.Plugin.UpdateContainer", old(ncalls("api.Plugin.UpdateContainer")), 0) in let err = callret("api.Plugin.UpdateContainer", old(ncalls("api.Plugin.UpdateContainer")), 1) in
+//@                          (err == nil ==> result.0 == rpl && result.1 == nil && p.closed == old(p.closed))
+//@                       && (err != nil && isFatalError(err) ==> result.0 == nil && result.1 == nil && p.closed)
+//@                       && (err != nil && !isFatalError(err) ==> result.0 == nil && result.1 == err && p.closed == old(p.closed)))
+//@   ensures [ttrpc]   old(subscribed(p, Event_UPDATE_CONTAINER)) && p.impl.wasmImpl == nil ==> ncalls("api.PluginService.UpdateContainer") == old(ncalls("api.PluginService.UpdateContainer")) + 1
+//@                     && callarg("api.PluginService.UpdateContainer", old(ncalls("api.PluginService.UpdateContainer")), 2) == req && hasdeadline(callarg("api.PluginService.UpdateContainer", old(ncalls("api.PluginService.UpdateContainer")), 1))
+//@                     && (let rpl = callret("api.PluginService.UpdateContainer", old(ncalls("api.PluginService.UpdateContainer")), 0) in let err = callret("api.PluginService.UpdateContainer", old(ncalls("api.PluginService.UpdateContainer")), 1) in
+//@                          (err == nil ==> result.0 == rpl && result.1 == nil && p.closed == old(p.closed))
+//@                       && (err != nil && isFatalError(err) ==> result.0 == nil && result.1 == nil && p.closed)
+//@                       && (err != nil && !isFatalError(err) ==> result.0 == nil && result.1 == err && p.closed == old(p.closed)))
+//@   ensures [same]    p.events == old(p.events) && p.impl == old(p.impl) && p.idx == old(p.idx) && p.base == old(p.base) && !held(p.Mutex) && cfgLockFree()
+
+//@ func plugin.stopContainer
+//@   props C06 C07
+//@   requires p != nil && p.impl != nil && !held(p.Mutex) && cfgLockFree()
+//@   requires p.impl.wasmImpl == nil ==> p.impl.ttrpcImpl != nil && p.mux != nil && p.rpcc != nil && p.rpcs != nil && p.rpcl != nil
+//@   modifies @writes
+//@   ensures [unsub]   !old(subscribed(p, Event_STOP_CONTAINER)) ==> result.0 == nil && result.1 == nil && ncalls("api.Plugin.StopContainer") == old(ncalls("api.Plugin.StopContainer")) && ncalls("api.PluginService.StopContainer") == old(ncalls("api.PluginService.StopContainer")) && p.closed == old(p.closed)
+//@   ensures [once]    old(subscribed(p, Event_STOP_CONTAINER)) ==> ncalls("api.Plugin.StopContainer") + ncalls("api.PluginService.StopContainer") == old(ncalls("api.Plugin.StopContainer") + ncalls("api.PluginService.StopContainer")) + 1
+//@   ensures [wasm]    old(subscribed(p, Event_STOP_CONTAINER)) && p.impl.wasmImpl != nil ==> ncalls("api.Plugin.StopContainer") == old(ncalls("api.Plugin.StopContainer")) + 1
+//@                     && callarg("api.Plugin.StopContainer", old(ncalls("api.Plugin.StopContainer")), 2) == req && hasdeadline(callarg("api.Plugin.StopContainer", old(ncalls("api.Plugin.StopContainer")), 1))
+//@                     && (let rpl = callret("api.Plugin.StopContainer", old(ncalls("api.Plugin.StopContainer")), 0) in let err = callret("api.Plugin.StopContainer", old(ncalls("api.Plugin.StopContainer")), 1) in
+//@                          (err == nil ==> result.0 == rpl && result.1 == nil && p.closed == old(p.closed))
+//@                       && (err != nil && isFatalError(err) ==> result.0 == nil && result.1 == nil && p.closed)
+//@                       && (err != nil && !isFatalError(err) ==> result.0 == nil && result.1 == err && p.closed == old(p.closed)))
+//@   ensures [ttrpc]   old(subscribed(p, Event_STOP_CONTAINER)) && p.impl.wasmImpl == nil ==> ncalls("api.PluginService.StopContainer") == old(ncalls("api.PluginService.StopContainer")) + 1
+//@                     && callarg("api.PluginService.StopContainer", old(ncalls("api.PluginService.StopContainer")), 2) == req && hasdeadline(callarg("api.PluginService.StopContainer", old(ncalls("api.PluginService.StopContainer")), 1))
+//@                     && (let rpl = callret("api.PluginService.StopContainer", old(ncalls("api.PluginService.StopContainer")), 0) in let err = callret("api.PluginService.StopContainer", old(ncalls("api.PluginService.StopContainer")), 1) in
+//@                          (err == nil ==> result.0 == rpl && result.1 == nil && p.closed == old(p.closed))
+//@                       && (err != nil && isFatalError(err) ==> result.0 == nil && result.1 == nil && p.closed)
+//@                       && (err != nil && !isFatalError(err) ==> result.0 == nil && result.1 == err && p.closed == old(p.closed)))
+//@   ensures [same]    p.events == old(p.events) && p.impl == old(p.impl) && p.idx == old(p.idx) && p.base == old(p.base) && !held(p.Mutex) && cfgLockFree()
+
